@@ -189,6 +189,30 @@ class Machine:
                     new_roots.append(res)
             except c09.RuleError:
                 self.lab.tag("transform-raised")
+        elif kind == "transform_fail":
+            # every second visited node is rewritten (so its ancestors are rebuilt around shared
+            # original siblings), then the visitor fails at a drawn later node
+            from pyoak.visitor import ASTTransformVisitor
+
+            r = self.root(o[1])
+            k = 1 + o[2] % max(1, len(T.live_nodes(r)))
+            cnt = [0]
+            srcs = self.sources
+
+            class FailLate(ASTTransformVisitor):
+                def generic_visit(self, node):  # noqa: ANN001
+                    new = super().generic_visit(node)
+                    cnt[0] += 1
+                    if cnt[0] > k:
+                        raise c09.RuleError(0)
+                    if cnt[0] % 2 == 0:
+                        return dataclasses.replace(new, origin=og.build_origin(["gen", cnt[0] % 3], srcs))
+                    return new
+
+            try:
+                FailLate().transform(r)
+            except c09.RuleError:
+                self.lab.tag("transform-raised-late")
         elif kind == "duplicate":
             new_roots.append(self.node(o[1], o[2]).duplicate())
         elif kind in ("replace", "dc_replace"):
@@ -328,7 +352,7 @@ def st_program(ctx: Ctx):
     g = T.TreeGen(leaves=ctx.pick(7, 10), origin_rate=0.25, detach_rate=0.06, servals=True, frozensets=False)
     s = st.integers(0, 60)
     small = st.integers(0, 15)
-    action = st.tuples(st.sampled_from(["keep", "clone", "rewrite", "replace", "remove", "raise"]), small).map(list)
+    action = st.tuples(st.sampled_from(["keep", "clone", "rewrite", "replace", "remove", "raise", "raise_nth", "raise_nth"]), small).map(list)
     rule = st.tuples(st.integers(0, len(c09.RULE_CLASSES) - 1), action).map(list)
     ops = [
         st.tuples(st.just("traverse"), s, small, st.integers(0, 127), st.integers(0, 127)),
@@ -337,6 +361,7 @@ def st_program(ctx: Ctx):
         st.tuples(st.just("pattern"), s, s, small),
         st.tuples(st.just("transform"), s, st.lists(rule, min_size=1, max_size=3), st.booleans()),
         st.tuples(st.just("duplicate"), s, s),
+        st.tuples(st.just("transform_fail"), s, s),
         st.tuples(st.just("replace"), s, s, small),
         st.tuples(st.just("dc_replace"), s, s, small),
         st.tuples(st.just("replace_fail"), s, s, small),
